@@ -447,7 +447,7 @@ fn run(ctx: &mut Ctx) {
     let long_b: &'static str = leak(&format!("{}b", "a".repeat(299)));
     let rn2: Vec<&'static str> = vec!["r", "r1", "r10", "r100", "r2", "R1", "r1 ", " r1", "r\u{e9}", "re\u{301}", "rule", "rules", "", " ", long_a, long_b, "x", "y", "z", "r3", "r4", "r5", "r6", "r7", "r8", "r9", "r11", "r12"];
     let fn2: Vec<&'static str> = vec!["f", "f1", "f10", "f2", "fa", "fab", "fabc", "F1", "f\u{e9}", "fe\u{301}", "g", "g_", "_g", "g1_", long_a, long_b, "h1", "h2", "h3", "h4", "h5", "h6", "h7", "h8", "h9", "in", "int", "inty", "1f", "f-1"];
-    let mut sn2: Vec<&'static str> = vec!["s", "s1", "s10", "S", "s ", "t", "u", "v", "w", long_a];
+    let mut sn2: Vec<&'static str> = vec!["s", "s1", "s10", "S", "s ", "t", "u", "v", "w", long_a, ":s", "::s", ":t", "s:"];
     for i in 0..30 {
         sn2.push(leak(&format!("sym{i}")));
     }
